@@ -134,6 +134,17 @@ func c14Scenarios(thorough bool) []c14Scenario {
 				{Op: "diagnostics", Doc: "third.journal"},
 				{Op: "diagnostics", Doc: "side1.journal"},
 			}},
+		// the included file is saved with other content while the including document's analysis may be running
+		{Name: "S9-included-file-saved", Files: files, Bound: b(2, 3), Msgs: []wire.Msg{
+			{Op: "open", Doc: "main.journal", Text: c14Main1},
+			{Op: "savefile", Doc: "inc.journal", Text: c14Inc1},
+			{Op: "completion", Doc: "main.journal", Line: 8, Char: 11},
+			{Op: "drain"},
+			{Op: "completion", Doc: "main.journal", Line: 8, Char: 11},
+			{Op: "change", Doc: "main.journal", Text: c14Main0},
+			{Op: "drain"},
+			{Op: "completion", Doc: "main.journal", Line: 4, Char: 11},
+		}},
 		{Name: "S4-two-docs-semantic-tokens", Files: files, Bound: b(1, 2), Msgs: []wire.Msg{
 			{Op: "open", Doc: "main.journal", Text: c14Main0},
 			{Op: "open", Doc: "inc.journal", Text: c14Inc0},
@@ -169,6 +180,8 @@ func c14Dir(c *core.Ctx, sc c14Scenario) string {
 
 func c14Session(dir string, sc c14Scenario) *wire.Session {
 	server.VerifxResetGlobals()
+	// the disk is part of the scenario state ("savefile" writes to it): restore it
+	writeFiles(dir, sc.Files)
 	// disk is part of the scenario state: restore it (no message writes to disk,
 	// but keep the invariant explicit)
 	s := wire.New()
@@ -344,6 +357,8 @@ func c14Resource(m wire.Msg) string {
 	switch m.Op {
 	case "open", "change":
 		return "doc:" + m.Doc
+	case "savefile":
+		return "reanalysis"
 	case "initialized", "config", "configq":
 		return "config"
 	}
